@@ -108,14 +108,21 @@ func stdSeqJoin(_ context.Context, joiner, subject rel.Value) (rel.Value, error)
 		}
 		return arrayJoin(joiner, subject)
 	case rel.Bytes:
-		if _, isSet := joiner.(rel.GenericSet); isSet {
+		switch joiner.(type) {
+		case rel.GenericSet:
 			return subject, nil
+		case rel.Bytes, rel.EmptySet:
+			return bytesJoin(joiner, subject), nil
 		}
-		return bytesJoin(joiner, subject), nil
 	case rel.GenericSet:
 		switch joiner.(type) {
 		case rel.String:
 			// if joiner is rel.String
+			for e := subject.Enumerator(); e.MoveNext(); {
+				if _, is := e.Current().(rel.ArrayItemTuple); !is {
+					return nil, fmt.Errorf("join: unsupported args: %s, %s", joiner, subject)
+				}
+			}
 			return strJoin(joiner, subject)
 		case rel.Array, rel.GenericSet, rel.Bytes:
 			return subject, nil
